@@ -160,12 +160,62 @@ def flush_left_checks(ctx):
                             f"free-form program {lines!r} has fixed={flag}")], {"flush_left": lines})
 
 
+# ------------------------------------------------------------------ flush-left free form (F77 habits in a .f90 file)
+FL_DECLS = ["integer n", "integer :: i, j", "real x", "real(8) :: y", "double precision d", "double precision :: dd(3)", "character(len=8) c",
+            "character*8 name", "complex z", "complex(8) :: zz", "logical flag", "double complex w", "dimension v(3)", "type(t_fl) :: obj",
+            "class(*), pointer :: cp", "external fext", "parameter (k = 3)"]
+FL_EXEC = ["x = 1.0", "call fext(x)", "do i = 1, 3", "end do", "if (x > 0.0) then", "end if", "print *, x", "d = 2.0d0", "c = 'ab'", "continue",
+           "! a comment line", "c = c", "data n /3/", "call setup", "dd(1) = d"]
+
+
+@st.composite
+def flush_left_st(draw):
+    unit = draw(st.sampled_from(["subroutine area(n, x)", "program area", "function area(n, x)", "module area"]))
+    decls = draw(st.lists(st.sampled_from(FL_DECLS), min_size=0, max_size=4, unique=True))
+    execs = [] if unit.startswith("module") else draw(st.lists(st.sampled_from(FL_EXEC), min_size=1, max_size=6))
+    case = draw(st.sampled_from(["lower", "upper", "title"]))
+    lines = [unit] + (["implicit none"] if draw(st.booleans()) else []) + decls + execs + ["end " + unit.split("(")[0]]
+    conv = {"lower": str.lower, "upper": str.upper, "title": str.capitalize}[case]
+    lines = [l if l.startswith("!") else conv(l) for l in lines]
+    if draw(st.booleans()):
+        lines.insert(draw(st.integers(0, len(lines))), "! comment")
+    typed = [d for d in decls if d.split("(")[0].split()[0].split("*")[0] in ("integer", "real", "double", "character", "complex", "logical", "type", "class")]
+    # only type declaration statements count as "declarations" for form detection (DIMENSION / EXTERNAL / PARAMETER do not)
+    return {"flush_left": lines, "ndecl": len(typed), "decl_first_letters": sorted({d[0] for d in typed})}
+
+
+def flush_left_oracle(ctx):
+    def oracle(case):
+        root = os.path.join(ctx.scratch, "c14_fl2")
+        import shutil
+
+        shutil.rmtree(root, ignore_errors=True)
+        os.makedirs(root)
+        p = os.path.join(root, "x.f90")
+        with open(p, "w") as fh:
+            fh.write("\n".join(case["flush_left"]) + "\n")
+        srv = Server(root=root, argv=fws.ARGV)
+        flag = fixed_flag(srv, p)
+        only_cd = bool(case["ndecl"]) and set(case["decl_first_letters"]) <= {"c", "d"}
+        ctx.case(("flush-left-gen", tuple(case["flush_left"])), case["ndecl"] > 0, sample={"lines": case["flush_left"]} if only_cd else None,
+                 classes=["flush-left-generated"] + (["declarations-all-start-with-c-or-d"] if only_cd else []) + ([] if case["ndecl"] else ["no-declarations"]))
+        if flag is not False:
+            if case["ndecl"] == 0:
+                return [Disc("free-form-classified-as-fixed:flush-left-without-declaration-in-columns-1-5-or-&", f"free-form program {case['flush_left']!r} has fixed={flag}")]
+            return [Disc("free-form-classified-as-fixed:flush-left-with-declarations", f"free-form program {case['flush_left']!r} (declarations in column 1) has fixed={flag}")]
+        return []
+
+    return oracle
+
+
 case_st = st.tuples(fmodel.program_st(), fmodel.layout_st, st.sampled_from(["&", "1", "+", "$", "x", "*"]),
                     st.sampled_from(["C", "c", "*", "!", "d", "mixed"]))
 
 
 def run(ctx):
     flush_left_checks(ctx)
+    ctx.hyp(flush_left_st(), flush_left_oracle(ctx), max_examples=ctx.n(60, 2000), label="flush-left", collect=bool(os.environ.get("VERIF_COLLECT")),
+            case_of=lambda c: {"flush_left": c["flush_left"]})
 
     def oracle(v):
         prog, layout, cc, cf = v
